@@ -27,3 +27,12 @@ VARIANTS += [
       old="        ('pooled_covariance_inv', 'pooled_covariance_inv'),\n        ('pooled_covariance', 'pooled_covariance'),\n",
       new="        ('pooled_covariance_inv', 'pooled_covariance'),\n        ('pooled_covariance', 'pooled_covariance_inv'),\n"),
 ]
+
+VARIANTS += [
+ dict(id='c14-pooled-divided-by-populated-classes', prop='C14', expect='C14-D9', file='scared/distinguishers/template.py',
+      old="        self.pooled_covariance /= len(self.partitions)\n", new="        self.pooled_covariance /= max(_np.count_nonzero(self._counters), 1)\n"),
+ dict(id='c14-pooled-divided-by-populated-classes-local', prop='C14', expect='C14-D9', file='scared/distinguishers/template.py',
+      old="        self.pooled_covariance /= len(self.partitions)\n", new="        populated = _np.count_nonzero(tmp_counters)\n        self.pooled_covariance /= populated\n"),
+ dict(id='c14-silent-pooled-divided-by-len-counters', prop='C14', kind='silent', file='scared/distinguishers/template.py',
+      old="        self.pooled_covariance /= len(self.partitions)\n", new="        nb_classes = len(self.partitions)\n        self.pooled_covariance /= max(nb_classes, nb_classes)\n"),
+]
